@@ -191,6 +191,44 @@ def rename_case(draw, profile):
             "from_shadowing": bool(F["cls"]) and v in hierarchy_names(p, F["cls"])}
 
 
+# ------------------------------------------------------------------ early-exit family (text templates, own renaming)
+# A callee leaves a loop / block by `return`; its caller owns variables that are used AFTER the call.  The program is rendered
+# twice: with names disjoint from the callee's parameters and locals, and with exactly the callee's names.  Lexical scoping
+# makes the two renderings print the same (no name occurs in the output).
+
+EX_SHAPES = {
+    "for": "for (int {I} = 0; {I} < {N}; {I} = {I} + 1) {{ if ({I} == {R}) {{ return 100 + {I}; }} }}",
+    "for_block": "for (int {I} = 0; {I} < {N}; {I} = {I} + 1) {{ int {T} = {I} * 2; {{ if ({T} == {R} * 2) {{ return 100 + {I}; }} }} }}",
+    "nested_for": "for (int {T} = 0; {T} < 2; {T} = {T} + 1) {{ for (int {I} = 0; {I} < {N}; {I} = {I} + 1) {{ if ({I} == {R}) {{ return 100 + {I} + {T}; }} }} }}",
+    "while": "int {I} = 0; while ({I} < {N}) {{ if ({I} == {R}) {{ return 100 + {I}; }} {I} = {I} + 1; }}",
+    "if_block": "int {I} = {R}; if ({I} < {N}) {{ int {T} = {I} + 1; return 100 + {T}; }}",
+}
+
+
+@st.composite
+def exit_case(draw):
+    return {"kind": "exit", "shape": draw(st.sampled_from(sorted(EX_SHAPES))), "r": draw(st.integers(0, 4)), "n": draw(st.integers(0, 5)),
+            "method": draw(st.booleans()), "relay": draw(st.booleans()), "collide": draw(st.lists(st.booleans(), min_size=4, max_size=4))}
+
+
+def exit_program(case, collide):
+    callee = {"R": "r", "N": "n", "I": "i", "T": "t"}
+    caller = {}
+    for k, (own, c) in zip(["R", "N", "I", "T"], zip(["a", "b", "c", "d"], case["collide"])):
+        caller[k] = callee[k] if (collide and c) else own
+    body = EX_SHAPES[case["shape"]].format(**callee)
+    fn = f"function f(int {callee['R']}, int {callee['N']}) -> int {{ {body} return 0 - 1; }}"
+    decl = ("class H { public constructor() -> H { return this; } public " + fn + " }\n") if case["method"] else fn + "\n"
+    call = ("h.f(%d, %d)" if case["method"] else "f(%d, %d)") % (case["r"], case["n"])
+    A, B, C, D = caller["R"], caller["N"], caller["I"], caller["T"]
+    use = (f"int {A} = 40; int {B} = 50; int {C} = 60; int {D} = 70; " + ("H h = new H(); " if case["method"] else "") +
+           f"echo({call}); echo({A}); echo({B}); echo({C}); echo({D}); {A} = {A} + 1; {C} = {C} + {B}; echo({A}); echo({C}); "
+           f"echo({call}); echo({A} + {B} + {C} + {D});")
+    if case["relay"]:
+        return decl + f"function mid() -> int {{ {use} return {A}; }}\nfunction main() -> void {{ int {A} = 7; echo(mid()); echo({A}); }}\n"
+    return decl + f"function main() -> void {{ {use} }}\n"
+
+
 class C09(Check):
     prop = "C09"
     rule = ("programs from the classic and classes profiles; one local/parameter of one function/method/constructor renamed to a "
@@ -204,7 +242,26 @@ class C09(Check):
     def render(self, p):
         return genclass.render(p) if p.get("classes") else genprog.render_program(p)
 
+    def exit_run(self, case, sc, stats=None):
+        s1, s2 = exit_program(case, False), exit_program(case, True)
+        r1 = progrun.run_cli(self.drv, sc, s1)
+        r2 = progrun.run_cli(self.drv, sc, s2)
+        if r1.proc.timeout or r2.proc.timeout:
+            return None
+        for r, s_ in ((r1, s1), (r2, s2)):
+            if r.proc.crashed() or r.rc != 0:
+                return {"why": f"early-exit program failed: rc={r.rc} {r.stderr_lines[-1:]}", "source": s_, **r.proc.brief()}
+        if stats is not None:
+            stats.record(case, any(case["collide"]) and case["r"] < case["n"], tags=["early_exit_family", "shape_" + case["shape"]],
+                         sample={"disjoint": s1, "colliding": s2})
+        if list(r1.stdout_lines) != list(r2.stdout_lines):
+            return {"why": "giving the caller's variables the names of the callee's parameters / locals changed the output",
+                    "disjoint": list(r1.stdout_lines), "colliding": list(r2.stdout_lines), "source_disjoint": s1, "source_colliding": s2}
+        return None
+
     def run_case(self, case, sc, stats=None):
+        if case.get("kind") == "exit":
+            return self.exit_run(case, sc, stats)
         if case.get("skip"):
             return None
         p = case["prog"]
@@ -280,6 +337,9 @@ def _worker(widx, wseed, tier, check):
             f = hyp_search(rename_case(prof), prop, derive_seed(wseed, prof), n, stats)
             if f:
                 failures.append(f)
+        f = hyp_search(exit_case(), prop, derive_seed(wseed, "exit"), 40 if quick else 1000, stats)
+        if f:
+            failures.append(f)
     return {"stats": stats.export(), "failures": failures}
 
 
